@@ -9,6 +9,7 @@ G  the same grids through the real classes: two 1-D model cases are paired into 
 """
 import ast
 import inspect
+import math
 import random
 from fractions import Fraction as F
 
@@ -151,6 +152,32 @@ def check_pair(ck, c1, c2, scale, exact, reassigned_from=None):
     return True
 
 
+def near_the_ends(ck):
+    """parameters a hair inside / outside the ends of [0, 1] (and a little further): the value is the Bernstein polynomial there too - exact rational reference"""
+    curves = [[0j, 3 + 4j], [1 - 2j, 4 + 4j, -3 + 1j], [0j, 3 + 4j, -2 + 5j, 6 + 0j], [2 + 2j, 2 + 2j, 5 - 1j, -4 + 3j], [1 + 1j, 4 - 2j, 7 + 7j, 7 + 7j]]
+    ts = [1 - 2.0 ** -20, 1 + 2.0 ** -20, 1 - 1e-9, 1 + 1e-9, 1 - 1e-5, 1 + 3e-6, 1 - 1e-13, 2.0 ** -30, -2.0 ** -25, 1e-9, -1e-6, 1e-5]
+    for z in curves:
+        seg = make(z)
+        n = len(z) - 1
+        mag = max(abs(w) for w in z)
+        for t in ts:
+            tq = F(t)
+            ex = sum(F(math.comb(n, i)) * (1 - tq) ** (n - i) * tq ** i * F(int(w.real)) for i, w in enumerate(z))
+            ey = sum(F(math.comb(n, i)) * (1 - tq) ** (n - i) * tq ** i * F(int(w.imag)) for i, w in enumerate(z))
+            exp = complex(float(ex), float(ey))
+            ck.case(fp=('near-end', str(z), t), nontrivial=True)
+            try:
+                got = {'point': complex(seg.point(t)), 'poly()(t)': complex(seg.poly()(t)), 'points': complex(seg.points([t, 0.5])[0])}
+            except Exception as e:      # noqa
+                got = {'raises': e}
+            for fn, g in got.items():
+                if isinstance(g, Exception) or not (abs(g - exp) <= 1e-13 * mag * 8):
+                    ck.disagree(key='%s.%s/near-the-ends-of-the-interval' % (type(seg).__name__, fn), site='svgpathtools/path.py:%s.%s' % (type(seg).__name__, fn),
+                                what='%s.%s at t = %r: got %r, Bernstein value %r (control points %s)' % (type(seg).__name__, fn, t, g, exp, z),
+                                case={'z': [str(w) for w in z], 't': t, 'fn': fn}, expected=repr(exp), observed=repr(g), driver='near-ends')
+                    break
+
+
 def run(ck):
     rnd = random.Random(ck.seed)
     quick = ck.tier == 'quick'
@@ -165,6 +192,7 @@ def run(ck):
     # the degree <= 3 identities over unbounded integers (symbolic), and a perturbed one refuted (non-vacuity)
     ck.apalache('MC_Ident', 'Inv')
     ck.apalache('MC_Ident', 'Wrong', expect_error=True)
+    near_the_ends(ck)
     dump = 'SPECIFICATION Spec\nCONSTANTS D = %d\n AMin <- %s\n AMax = %d\n MaxDeg = 3\n Dense <- %s\nINVARIANT Dump\n'
     for D, amin, amax, dense, exact in ((8, 'MinusTwo', 10, 'Dense4', True), (3, 'MinusOne', 4, 'Dense3' if quick else 'Dense4', False)):
         groups = {}
